@@ -3,10 +3,14 @@
 proof phase   : Props/C12.v - hand-written model of the logic around scipy.optimize.least_squares (Fit/FitLogic.v: initial_guess_bounds
                 clamp, residual / reported error, branch selection, best-of-list) and its theorems (Fit/FitTheorems.v); the optimiser is a premise
 correspondence: the model (QNum, vm_compute) against the implementation on every generated fit: clamp of random guesses, rmse^2 from the
-                captured opt_res.fun / len(loading) / range, the rows handed to the optimiser vs the requested branch, position of the model
+                captured opt_res.fun and the ROWS handed to the optimiser (the model computes max - min itself; the reported value must be >= 0),
+                bound / start vectors captured from the least_squares call vs the model's by-name construction from the dictionaries in the
+                user's key order (permuted keys, subsets -> KeyError), the rows handed to the optimiser vs the requested branch, position of the model
                 returned by ModelIsotherm.guess among the single fits (least_squares is observed by proxying base_model.optimize)
 oracle/search : on the implementation: contract of least_squares (fun == residual at x, bounds), error identity recomputed through the model's own
-                loading()/pressure(), exact-data recovery for the well-posed models, best-of-list vs single fits, bounds and user bounds, branch
+                loading()/pressure() on increasing / decreasing / shuffled rows and on both branches of two-branch DataFrames, exact-data recovery
+                for the well-posed models in every row order, best-of-list vs single fits (smallest reported AND smallest independently recomputed
+                error), bounds by name for permuted / partial dictionaries with binding caps (same outcome as in param_names order), branch
                 clause (perturbing the other branch changes nothing), PointIsotherm.from_modelisotherm lies on the model / keeps metadata /
                 re-fits to the same curve, pressure / loading / temperature unit covariance of the fitted curve
 """
@@ -25,10 +29,15 @@ MANIFEST = dict(
          "initial_guess_bounds puts every start value inside its bounds; whenever fit succeeds the parameters respect the bounds in force and the "
          "reported error IS sqrt(sum r_i^2 / N)/range of the residual of the fitted model at the returned parameters (premise: least_squares returns "
          "fun = residual(x) with x inside the bounds); ModelIsotherm.guess returns a candidate that converged, with the smallest reported error, the "
-         "earliest among ties (induction over any attempt list); only rows of the requested branch reach the optimiser; for data generated exactly "
-         "from the model the cost at the generator is 0 = global minimum and every zero-cost parameter vector reproduces the data; for the Langmuir "
-         "and Henry families a change of loading or pressure unit maps least-squares minimisers to minimisers and changes the curve only by that "
-         "unit change. NOT proved (numerical optimisation is not modelled): that least_squares converges to the global minimum - recovery of the "
+         "earliest among ties (induction over any attempt list); bounds and start values are dictionaries keyed by parameter NAME: the vector handed to "
+         "the optimiser at position i is the entry of param_names[i] for ANY key order of the user's dictionary (induction over the name list and over "
+         "Permutation), a missing name is a KeyError, so every fitted parameter lies within the bounds given for ITS name; the normalising range is "
+         "max - min of the fitted rows, non-negative and invariant under any re-ordering of the rows (desorption branch, unsorted arrays), hence the "
+         "reported error is non-negative and order independent; only rows of the requested branch reach the optimiser; for data generated exactly "
+         "from the model the cost at the generator is 0 = global minimum and every zero-cost parameter vector reproduces the data; a change of "
+         "loading or pressure unit maps (bound-constrained) least-squares minimisers to minimisers and changes the curve only by that unit change, for "
+         "every family whose parameter vector absorbs the factor entry-wise - shown for the formulas GENERATED from pygaps/modelling (Henry, Langmuir, "
+         "DS/TSLangmuir, BET, GAB, Quadratic, TemkinApprox, Toth; loading unit also Freundlich, DR, DA). NOT proved (numerical optimisation is not modelled): that least_squares converges to the global minimum - recovery of the "
          "generator, re-fitting of generated point isotherms and unit covariance of the FITTED curve for all ten well-posed models are validated on "
          "the implementation on every run, as are the least_squares contract and the error identity (recomputed through the model's own "
          "loading()/pressure()). The model is tied to the code by executing it (QNum) beside the implementation.",
@@ -37,10 +46,12 @@ MANIFEST = dict(
          "pandas row filtering modelled as list filter; theorems over RNum, execution over QNum.",
     technique="Coq proof of optimiser glue + consequences of the optimiser contract; validation of fits on the implementation; model/code correspondence")
 
-HEADER = """From Coq Require Import QArith ZArith List.
+HEADER = """From Coq Require Import String.
+From Coq Require Import QArith ZArith List.
 From PG Require Import Lib.Num Lib.Py Lib.Show Fit.FitLogic Fit.FitShow.
 Import ListNotations. Open Scope Z_scope.
 """
+ORDERS = ['inc', 'dec', 'shuf']
 WELL_POSED = ['Henry', 'Langmuir', 'DSLangmuir', 'BET', 'Freundlich', 'DR', 'DA', 'TemkinApprox', 'Toth', 'JensenSeaton']
 ALL_MODELS = ["Henry", "Langmuir", "DSLangmuir", "TSLangmuir", "BET", "GAB", "Freundlich", "DA", "DR", "Quadratic", "TemkinApprox",
               "Virial", "Toth", "JensenSeaton", "FHVST", "WVST"]
@@ -78,6 +89,41 @@ def exact_curve(k, params, p):
     m = get_isotherm_model(k, parameters=params)
     m.__init_parameters__({'temperature': T_K})
     return np.array(m.loading(p), dtype=float)
+
+
+def reorder(rnd, how, *arrs):
+    """the same rows in another order: 'inc' as generated, 'dec' from high to low pressure (a desorption run), 'shuf' unsorted"""
+    n = len(arrs[0])
+    idx = list(range(n))
+    if how == 'dec':
+        idx.reverse()
+    elif how == 'shuf':
+        while n > 2 and idx in (list(range(n)), list(range(n))[::-1]):
+            rnd.shuffle(idx)
+    return [np.asarray(a)[idx] for a in arrs]
+
+
+def actual_rmse(m, p, l):
+    """the error as documented, recomputed independently through the model's own methods at its current parameters:
+    sqrt(sum r^2 / n) / (max - min of the fitted quantity); Virial: its own linearised residual, no range. -> (value|None, range, n, residual|None)"""
+    p = np.asarray(p, dtype=float); l = np.asarray(l, dtype=float)
+    with np.errstate(all='ignore'), warnings.catch_warnings():
+        warnings.simplefilter('ignore')
+        try:
+            if m.name == 'Virial':
+                keep = np.logical_and(p > 0, l > 0)
+                pp, ll = p[keep], l[keep]
+                r = m.params['C'] * ll**3 + m.params['B'] * ll**2 + m.params['A'] * ll - np.log(m.params['K']) - np.log(pp / ll)
+                return float(np.sqrt(np.sum(r**2) / len(ll))), 1.0, len(ll), r
+            if m.calculates == 'loading':
+                r = np.array(m.loading(p), dtype=float) - l
+                rng = float(max(l) - min(l))
+            else:
+                r = np.array([float(m.pressure(v)) for v in l], dtype=float) - p
+                rng = float(max(p) - min(p))
+            return float(np.sqrt(np.sum(r**2) / len(l)) / rng), rng, len(l), r
+        except Exception:  # noqa
+            return None, 0.0, len(l), None
 
 
 class OptProxy:
@@ -195,37 +241,29 @@ def _explore(rep, tier, seed, proxy):
         if not (np.array_equal(lo, [b[0] for b in pb]) and np.array_equal(hi, [b[1] for b in pb])):
             fail('bounds', '%s: bounds handed to the optimiser %r differ from the bounds in force %r' % (label, [lo.tolist(), hi.tolist()], pb), replay, m.name)
         # error identity, recomputed independently through the model's own methods at the returned parameters
-        p = np.asarray(p, dtype=float); l = np.asarray(l, dtype=float)
-        with np.errstate(all='ignore'), warnings.catch_warnings():
-            warnings.simplefilter('ignore')
-            if m.name == 'Virial':
-                keep = np.logical_and(p > 0, l > 0)
-                pp, ll = p[keep], l[keep]
-                r = m.params['C'] * ll**3 + m.params['B'] * ll**2 + m.params['A'] * ll - np.log(m.params['K']) - np.log(pp / ll)
-                if len(r) != len(res.fun):        # the documented add_point option prepends a point: not generated here
-                    r = None
-                expect = None if r is None else float(np.sqrt(np.sum(r**2) / len(ll)))
-                n_used, rng = len(ll), 1.0
-            elif m.calculates == 'loading':
-                r = np.array(m.loading(p), dtype=float) - l
-                rng = float(max(l) - min(l)); n_used = len(l)
-                expect = float(np.sqrt(np.sum(r**2) / len(l)) / rng)
-            else:
-                r = np.array([float(m.pressure(v)) for v in l], dtype=float) - p
-                rng = float(max(p) - min(p)); n_used = len(l)
-                expect = float(np.sqrt(np.sum(r**2) / len(l)) / rng)
-        if expect is not None and math.isfinite(expect):
+        expect, rng, n_used, r = actual_rmse(m, p, l)
+        if r is not None and len(r) != len(res.fun):        # Virial's documented add_point option prepends a point: not generated here
+            expect = None
+        if math.isfinite(float(m.rmse)) and m.rmse < 0:
+            fail('rmse-negative', '%s: reported rmse %r is negative (documented: rms deviation / (max - min) of the fitted data)' % (label, m.rmse), replay, m.name)
+        elif expect is not None and math.isfinite(expect):
             dev = abs(m.rmse - expect) / max(abs(expect), 1e-300)
             if expect > 1e-12:
                 stats['worst_rmse_identity'] = max(stats['worst_rmse_identity'], dev)
             if dev > 1e-6 and abs(m.rmse - expect) > 1e-12:
-                fail('rmse-identity', '%s: reported rmse %r but the rms deviation of the fitted model from the data / range is %r' % (label, m.rmse, expect), replay, m.name)
+                fail('rmse-identity', '%s: reported rmse %r but the rms deviation of the fitted model from the data / (max - min) is %r' % (label, m.rmse, expect), replay, m.name)
             else:
                 nontrivial.add((m.name, len(l), label))
-        # Coq: the model's rmse^2 from opt_res.fun, len(loading), range
-        if math.isfinite(m.rmse) and rng > 0:
-            terms.append('cmp_rmse %s %d %s %s' % (zlist(res.fun), n_used, zme(rng), zme(m.rmse)))
-            term_what.append(('rmse', replay))
+        # Coq: the model's rmse^2 from opt_res.fun and the rows handed to the optimiser (range = max - min computed by the model, any row order)
+        if math.isfinite(m.rmse):
+            a = kw['args']
+            if m.name == 'Virial':
+                terms.append('cmp_rmse %s %d %s %s' % (zlist(res.fun), len(a[0]), zme(1.0), zme(m.rmse)))
+                term_what.append(('rmse', replay))
+            elif len(a) == 2 and len(a[0]) == len(a[1]) and rng > 0:
+                rows = '; '.join('(%s, %s)' % (zme(u), zme(v)) for u, v in zip(a[0], a[1]))
+                terms.append('cmp_rmse_data %s [%s] %s %s' % ('true' if m.calculates == 'loading' else 'false', rows, zlist(res.fun), zme(m.rmse)))
+                term_what.append(('rmse', replay))
 
     def fit_arrays(k, p, l, mode, replay, label, **kw):
         n0 = len(proxy.calls)
@@ -243,12 +281,15 @@ def _explore(rep, tier, seed, proxy):
         for it in range(40 if big else 5):
             params = rparams(rnd, k)
             p, mode = grid(rnd, k)
+            order = ORDERS[it % 3]
+            p, = reorder(rnd, order, p)
             l = exact_curve(k, params, p)
-            replay = dict(kind='exact', model=k, params=params, p=p.tolist(), mode=mode)
-            oc, iso = fit_arrays(k, p, l, mode, replay, 'exact')
+            replay = dict(kind='exact', model=k, params=params, p=p.tolist(), mode=mode, order=order)
+            oc, iso = fit_arrays(k, p, l, mode, replay, 'exact' if order == 'inc' else 'exact-' + order)
             if oc != 'Ok':
-                fail('exact-fit-failed', 'fitting %s to %d points generated from %s %r raised %s' % (k, len(p), k, params, oc), replay, k)
-                continue
+                if order == 'inc' or oc != 'CalculationError':
+                    fail('exact-fit-failed', 'fitting %s to %d points generated from %s %r raised %s' % (k, len(p), k, params, oc), replay, k)
+                continue          # re-ordered rows: the default start depends on the first row; a reported non-convergence is not a wrong result
             rng = float(max(l) - min(l))
             with np.errstate(all='ignore'):
                 dev = float(np.max(np.abs(np.array(iso.model.loading(p), dtype=float) - l))) / rng
@@ -260,7 +301,7 @@ def _explore(rep, tier, seed, proxy):
                 continue
             nontrivial.add(('exact', k, len(p)))
             # ---- D: a point isotherm generated from the model lies on the model, keeps metadata and units, re-fits to the same curve
-            pts = np.linspace(float(p[0]), float(p[-1]), rnd.randint(8, 30))
+            pts = np.linspace(float(min(p)), float(max(p)), rnd.randint(8, 30))
             oc2, piso = call(pygaps.PointIsotherm.from_modelisotherm, iso, pressure_points=list(pts))
             note('from_model/%s/%s' % (k, oc2))
             if oc2 != 'Ok':
@@ -295,7 +336,9 @@ def _explore(rep, tier, seed, proxy):
             l = exact_curve(base, rparams(rnd, base), p)
             l = np.maximum.accumulate(l * (1 + np.array([rnd.gauss(0, 0.02) for _ in p])))
             l = np.maximum(l, 1e-6)
-            replay = dict(kind='noisy', model=k, p=p.tolist(), l=l.tolist(), mode=mode)
+            order = ORDERS[(it + ALL_MODELS.index(k)) % 3]
+            p, l = reorder(rnd, order, p, l)
+            replay = dict(kind='noisy', model=k, p=p.tolist(), l=l.tolist(), mode=mode, order=order)
             extra = {}
             if it % 2 == 1 and k in ('Langmuir', 'Toth', 'TemkinApprox', 'BET', 'Freundlich', 'DSLangmuir', 'Henry', 'DR'):
                 m0 = get_isotherm_model(k)
@@ -307,28 +350,160 @@ def _explore(rep, tier, seed, proxy):
                     if rnd.random() < 0.5:
                         extra['param_guess'] = {n: (g[n] * 2.0 if n == nm else g[n]) for n in m0.param_names}
                         replay['param_guess'] = extra['param_guess']
-            fit_arrays(k, p, l, mode, replay, 'noisy' + ('-userbounds' if extra else ''), **extra)
+            fit_arrays(k, p, l, mode, replay, 'noisy' + ('' if order == 'inc' else '-' + order) + ('-userbounds' if extra else ''), **extra)
 
-    # ---------------- C: best of a candidate list vs the single fits
+    # ---------------- N: bounds and guesses are dictionaries keyed by parameter NAME: any key order, binding caps, subsets
+    multi = [k for k in ALL_MODELS if len(get_isotherm_model(k).param_names) >= 2]
+    for it in range(120 if big else 24):
+        k = multi[it % len(multi)] if it < 2 * len(multi) else rnd.choice(multi)
+        gen_k = k if k in WELL_POSED else ('BET' if k in RELATIVE else rnd.choice(['Langmuir', 'Toth', 'DSLangmuir']))
+        p, mode = grid(rnd, gen_k)
+        l = exact_curve(gen_k, rparams(rnd, gen_k), p)
+        if gen_k != k:
+            l = np.maximum(np.maximum.accumulate(l * (1 + np.array([rnd.gauss(0, 0.02) for _ in p]))), 1e-6)
+        m0 = get_isotherm_model(k)
+        names = list(m0.param_names)
+        defaults = [tuple(b) for b in m0.param_default_bounds]
+        g = exact_like_guess(m0, p, l)
+        if g is None or not all(math.isfinite(g.get(n, float('nan'))) for n in names):
+            note('named/%s/no-default-guess' % k)
+            continue
+        # bounds in force: some parameters capped so that the bound binds (below / above the default start), the others free or default
+        bnd = {}
+        for n, d in zip(names, defaults):
+            c = rnd.random()
+            lo_d, hi_d = float(d[0]), float(d[1])
+            if c < 0.4 and g[n] > 0:
+                hi = g[n] * rnd.uniform(0.3, 0.8)                      # cap below the default start value
+                bnd[n] = (max(lo_d, 0.0) if math.isfinite(lo_d) else -hi, min(hi, hi_d))
+            elif c < 0.6 and g[n] > 0:
+                lo = g[n] * rnd.uniform(1.2, 2.0)                      # floor above it
+                bnd[n] = (lo, min(lo * rnd.uniform(2, 10), hi_d)) if lo < hi_d else (lo_d, hi_d)
+            elif c < 0.8:
+                bnd[n] = (lo_d, hi_d)
+            else:
+                bnd[n] = (lo_d, hi_d if not math.isfinite(hi_d) else hi_d) if rnd.random() < 0.5 else (lo_d if math.isfinite(lo_d) else -1e6, abs(g[n]) * 50 + 1 if not math.isfinite(hi_d) else hi_d)
+        if all(bnd[n] == d for n, d in zip(names, defaults)):
+            n = rnd.choice(names)
+            if g[n] > 0:
+                bnd[n] = (bnd[n][0] if math.isfinite(bnd[n][0]) else 0.0, min(g[n] * 0.6, bnd[n][1]))
+        perm = list(names)
+        while perm == names:
+            rnd.shuffle(perm)
+        subset = it % 6 == 5
+        if subset:
+            perm = perm[:-1]
+        user_b = {n: bnd[n] for n in perm}                                  # the user's dictionary, in the user's key order
+        user_g = None
+        if it % 3 == 0:
+            gperm = list(names)
+            rnd.shuffle(gperm)
+            inside = lambda n: min(max(g[n] * rnd.uniform(0.8, 1.25), bnd[n][0]), bnd[n][1])
+            user_g = {n: float(inside(n)) for n in gperm}
+        replay = dict(kind='named', model=k, p=p.tolist(), l=l.tolist(), mode=mode, param_bounds={n: list(b) for n, b in user_b.items()},
+                      key_order=list(user_b), param_guess=user_g)
+        extra = dict(param_bounds=dict(user_b))
+        if user_g:
+            extra['param_guess'] = dict(user_g)
+        n0 = len(proxy.calls)
+        oc, iso = call(pygaps.ModelIsotherm, pressure=p, loading=l, model=k, **kw_iso(mode), **extra)
+        rec = proxy.calls[-1] if len(proxy.calls) > n0 else None
+        note('named%s/%s/%s' % ('-subset' if subset else '', k, oc))
+        label = 'named-bounds'
+        if oc == 'Ok' and rec is not None and rec['res'] is not None:
+            check_fit(iso, p, l, rec, replay, label)
+            bad = [n for n in user_b if not (user_b[n][0] <= float(iso.model.params[n]) <= user_b[n][1])]
+            if bad:
+                fail('bounds', 'fitted %s parameters %r violate the user bounds %r given for those names (dictionary written in the order %r)' % (
+                    k, {n: float(iso.model.params[n]) for n in bad}, {n: user_b[n] for n in bad}, list(user_b)), replay, k)
+        # the vectors handed to the optimiser, by name (observed on the captured call, whatever the outcome of the optimisation)
+        if rec is not None:
+            lo_v = [float(v) for v in rec['kw']['bounds'][0]]; hi_v = [float(v) for v in rec['kw']['bounds'][1]]
+            x0_v = [float(v) for v in rec['kw']['x0']]
+            pnames = list(get_isotherm_model(k).params)
+            if not subset and (lo_v != [float(user_b[n][0]) for n in pnames] or hi_v != [float(user_b[n][1]) for n in pnames]):
+                fail('bounds', 'bounds written as %r (key order %r) reached the optimiser as lower %r / upper %r for the parameters %r' % (
+                    {n: user_b[n] for n in user_b}, list(user_b), lo_v, hi_v, pnames), replay, k)
+        # the same dictionaries written in param_names order must give the same outcome
+        if not subset:
+            extra2 = dict(param_bounds={n: bnd[n] for n in names})
+            if user_g:
+                extra2['param_guess'] = {n: user_g[n] for n in names}
+            oc2, iso2 = call(pygaps.ModelIsotherm, pressure=p, loading=l, model=k, **kw_iso(mode), **extra2)
+            same = oc2 == oc and (oc != 'Ok' or (all(float(iso2.model.params[n]) == float(iso.model.params[n]) for n in names) and
+                                                 (float(iso2.model.rmse) == float(iso.model.rmse) or (math.isnan(iso2.model.rmse) and math.isnan(iso.model.rmse)))))
+            if not same:
+                fail('bounds-key-order', 'the same bounds / guesses for %s written in the key order %r give %s %r, written in param_names order %s %r' % (
+                    k, list(user_b), oc, None if oc != 'Ok' else {n: float(iso.model.params[n]) for n in names},
+                    oc2, None if oc2 != 'Ok' else {n: float(iso2.model.params[n]) for n in names}), replay, k)
+            elif oc == 'Ok':
+                nontrivial.add(('named', k, tuple(user_b), user_g is not None))
+        # Coq: model of the dictionary handling vs the captured call
+        if oc in ('Ok', 'CalculationError', 'KeyError', 'ParameterError') and (rec is not None or oc in ('KeyError', 'ParameterError')):
+            gd = None
+            if user_g:
+                gd = user_g
+            elif rec is not None:
+                m1 = get_isotherm_model(k, param_bounds=dict(user_b))
+                gd = exact_like_guess(m1, p, l)
+                if gd is None:
+                    continue
+            qs = lambda n: '"%s"%%string' % n
+            bq = lambda b: '(%s, %s)' % (zme(b[0]), zme(b[1]))
+            terms.append('cmp_named [%s] [%s] [%s] %s (%d) %s %s %s' % (
+                '; '.join(qs(n) for n in names), '; '.join(bq(b) for b in defaults), '; '.join('(%s, %s)' % (qs(n), bq(b)) for n, b in user_b.items()),
+                'None' if gd is None else '(Some [%s])' % '; '.join('(%s, %s)' % (qs(n), zme(v)) for n, v in gd.items()), occode(oc),
+                zlist(lo_v) if rec is not None else '[]', zlist(hi_v) if rec is not None else '[]', zlist(x0_v) if rec is not None else '[]'))
+            term_what.append(('named-bounds', replay))
+
+    # ---------------- C: best of a candidate list vs the single fits; rows in any order, arrays or a branch of a two-branch DataFrame
     fast = ['Henry', 'Langmuir', 'DSLangmuir', 'DR', 'Freundlich', 'Quadratic', 'BET', 'TemkinApprox', 'Toth', 'JensenSeaton', 'TSLangmuir', 'GAB', 'DA', 'Virial']
-    for it in range(60 if big else 8):
+    variants = ['arrays-inc', 'frame-des', 'arrays-dec', 'arrays-shuf', 'frame-ads']
+    from pygaps.modelling import _GUESS_MODELS
+    for it in range(60 if big else 10):
         base = rnd.choice(['Langmuir', 'Toth', 'DSLangmuir', 'BET'])
         p, mode = grid(rnd, base)
         l = exact_curve(base, rparams(rnd, base), p)
         if rnd.random() < 0.7:
             l = np.maximum.accumulate(l * (1 + np.array([rnd.gauss(0, 0.02) for _ in p])))
+        variant = variants[it % 5]
         cands = 'guess' if it % 4 == 0 else rnd.sample(fast, rnd.randint(2, 5))
         if cands != 'guess' and rnd.random() < 0.3:
             cands = cands + [cands[0]]          # a tie: the same model twice
-        replay = dict(kind='guess', models=cands, p=p.tolist(), l=l.tolist(), mode=mode)
-        oc, best = call(pygaps.ModelIsotherm.guess, pressure=p, loading=l, models=cands, **kw_iso(mode))
-        note('guess/%s' % oc)
-        from pygaps.modelling import _GUESS_MODELS
+        if variant.startswith('arrays'):
+            p, l = reorder(rnd, variant[7:], p, l)
+            data_kw = dict(pressure=p, loading=l)
+            replay = dict(kind='guess', models=cands, p=p.tolist(), l=l.tolist(), mode=mode, variant=variant)
+        else:
+            # the fitted rows are one branch of a DataFrame; the other branch holds different numbers
+            want = variant[6:]
+            po = np.linspace(float(min(p)), float(max(p)) * 1.05, rnd.randint(5, 12))
+            lo_ = exact_curve('Henry', {'K': lu(rnd, 0.1, 3)}, po)
+            if want == 'des':
+                p, l = reorder(rnd, 'dec', p, l)
+                df = pd.DataFrame({'pressure': np.concatenate([po, p]), 'loading': np.concatenate([lo_, l])})
+                marks = [0] * len(po) + [1] * len(p)
+            else:
+                po, lo_ = reorder(rnd, 'dec', po, lo_)
+                po = po * 0.9                    # the maximum pressure stays on the adsorption branch
+                df = pd.DataFrame({'pressure': np.concatenate([p, po]), 'loading': np.concatenate([l, lo_])})
+                marks = [0] * len(p) + [1] * len(po)
+            explicit = rnd.random() < 0.5
+            if explicit:
+                df['branch'] = marks
+            data_kw = dict(isotherm_data=df, pressure_key='pressure', loading_key='loading', branch=want)
+            replay = dict(kind='guess', models=cands, p=p.tolist(), l=l.tolist(), mode=mode, variant=variant, frame=df.to_dict('list'), branch=want)
+        oc, best = call(pygaps.ModelIsotherm.guess, models=cands, **data_kw, **kw_iso(mode))
+        note('guess-%s/%s' % (variant, oc))
         names = list(_GUESS_MODELS) if cands == 'guess' else cands
-        singles = []
+        singles, actual = [], []
         for nm in names:
-            o1, i1 = call(pygaps.ModelIsotherm, pressure=p, loading=l, model=nm, **kw_iso(mode))
+            n0 = len(proxy.calls)
+            o1, i1 = call(pygaps.ModelIsotherm, model=nm, **data_kw, **kw_iso(mode))
             singles.append((o1, float(i1.model.rmse) if o1 == 'Ok' else None))
+            actual.append(actual_rmse(i1.model, p, l)[0] if o1 == 'Ok' else None)
+            if o1 == 'Ok' and len(proxy.calls) > n0 and proxy.calls[-1]['res'] is not None and it % 2 == 1:
+                check_fit(i1, p, l, proxy.calls[-1], dict(replay, model=nm, kind='noisy'), 'candidate-' + variant)
         if any(o not in ('Ok', 'CalculationError') for o, _ in singles):
             continue      # a candidate raised something else: guess propagates it, nothing to compare
         conv = [(j, e) for j, (o, e) in enumerate(singles) if o == 'Ok']
@@ -339,7 +514,15 @@ def _explore(rep, tier, seed, proxy):
             if pos < 0 or float(best.model.rmse) != mn or any(e == mn for j, e in conv if j < pos):
                 fail('guess-not-argmin', 'guess over %r returned %s (rmse %r) but the single fits give %r' % (names, best.model.name, best.model.rmse, list(zip(names, singles))), replay)
             else:
-                nontrivial.add(('guess', tuple(names), best.model.name))
+                # smallest REPORTED error + reported == actual  =>  no converged candidate deviates less from the data (recomputed independently)
+                act = [(j, e) for j, e in enumerate(actual) if e is not None and math.isfinite(e) and singles[j][0] == 'Ok']
+                mine = actual_rmse(best.model, p, l)[0]
+                if act and mine is not None and math.isfinite(mine) and mine > min(e for _, e in act) * (1 + 1e-6) + 1e-12:
+                    jb = min(act, key=lambda t: t[1])[0]
+                    fail('guess-not-smallest-actual-error', 'guess over %r (%s) returned %s whose rms deviation / range from the data is %r, but %s deviates only %r' % (
+                        names, variant, best.model.name, mine, names[jb], actual[jb]), replay)
+                else:
+                    nontrivial.add(('guess', tuple(names), best.model.name, variant))
         elif oc == 'CalculationError':
             pos = 0
             if conv:
@@ -380,6 +563,8 @@ def _explore(rep, tier, seed, proxy):
                 fail('branch', 'fitting branch %r of a two-branch isotherm handed %d points to the optimiser, the branch has %d' % (want, len(used[0]), len(sel_p)), replay, k)
             else:
                 nontrivial.add(('branch', k, want, len(sel_p)))
+                if proxy.calls[-1]['res'] is not None:
+                    check_fit(iso, sel_p, sel_l, proxy.calls[-1], replay, 'branch-' + want)     # error identity etc. on the rows of that branch
             # perturb the OTHER branch: the fit must not change
             df2 = df.copy()
             oth = np.array(branch) == (0 if des else 1)
@@ -479,10 +664,14 @@ def _explore(rep, tier, seed, proxy):
                        'branch selections with the other branch perturbed, unit conversions with the fitted curve compared in the original units')
     rep.cov['input_distribution'] = dict(sorted(hist.items()))
     rep.cov['generators'] = ('well-posed models x random in-bounds parameters (log-uniform) x grids of 8-60 points (geometric or linear; relative pressure for '
-                             'BET/DR/DA); noisy increasing data (2% multiplicative noise, running maximum) for all 16 models, half with user bounds excluding the '
-                             'default guess / user guesses; candidate lists of 2-5 models incl. repeated names and "guess"; two-branch isotherms; 8 unit changes')
+                             'BET/DR/DA), rows handed over increasing / from high to low pressure / shuffled; noisy data (2% multiplicative noise, running maximum) in '
+                             'the same three orders for all 16 models, half with user bounds excluding the default guess / user guesses; for every model with >= 2 '
+                             'parameters: user bounds for all names with binding caps / floors, written in a random key order (never param_names order), every 6th a '
+                             'strict subset, a third with user guesses in another key order; candidate lists of 2-5 models incl. repeated names and "guess" on arrays '
+                             'in three orders and on the ads / des branch of a two-branch DataFrame (explicit or guessed branch column); two-branch isotherms; 8 unit changes')
     rep.cov['correspondence'] = {'terms_compared_in_coq': len(terms), 'disagreements': n_dis,
-                                 'what': 'FitLogic (QNum) vs implementation: clamp (exact), rmse^2 (1e-9), rows handed to the optimiser (exact), best-of-list position'}
+                                 'what': 'FitLogic (QNum) vs implementation: clamp (exact), rmse^2 with the range computed by the model from the rows handed over (1e-9, sign), '
+                                         'bound / start vectors by name from the dictionaries in the user key order (exact), rows handed to the optimiser (exact), best-of-list position'}
     rep.cov['validation'] = {'fits_checked': stats['n'], 'worst_rmse_on_exact_data': stats['worst_exact_rmse'], 'worst_deviation_over_range_on_exact_data': stats['worst_exact_dev'],
                              'worst_least_squares_contract_deviation': stats['worst_contract'], 'worst_rmse_identity_rel_deviation': stats['worst_rmse_identity'],
                              'thresholds': {'exact rmse': 1e-6, 'exact deviation/range': 1e-5, 'rmse identity': 1e-6, 'unit covariance deviation/range': 1e-4}}
@@ -490,8 +679,11 @@ def _explore(rep, tier, seed, proxy):
     rep.cov['trusted_base'] += ['hand-written model Fit/FitLogic.v (validated by the correspondence above)',
                                 'oracle: scipy.optimize.least_squares - fun = residual(x), x within bounds (validated on every captured call); global convergence NOT assumed by any theorem',
                                 'oracle: model loading()/pressure() formulas (C10)', 'carrier: theorems over RNum, execution over QNum']
-    rep.assumptions += ['optimiser convergence / local minima are not modelled: recovery of the generator, re-fit and unit covariance of the fitted curve are validated on sampled inputs only',
-                        'unit covariance is proved for the Langmuir and Henry families (minimisers map to minimisers); other families validated',
+    rep.assumptions += ['dictionaries with a missing parameter name raise KeyError (model and code agree); no fit is returned, so nothing is judged',
+                        'a CalculationError on exact data handed over in decreasing / shuffled order is a reported non-convergence, not judged (in increasing order it is)',
+                        'optimiser convergence / local minima are not modelled: recovery of the generator, re-fit and unit covariance of the fitted curve are validated on sampled inputs only',
+                        'unit covariance is proved as a statement about minimisers (12 generated families for the loading unit, 9 for the pressure unit); '
+                        'Jensen-Seaton, Virial, FHVST, WVST, the temperature unit and what least_squares actually finds are validated only',
                         'Virial uses its own linearised error definition (no range normalisation); its add_point option is not generated',
                         'IEEE rounding excluded (tolerances listed under validation.thresholds)']
 
@@ -510,6 +702,10 @@ def exact_like_guess(m0, p, l):
 def classify(kind, replay, model=None):
     if kind == 'units-temperature' and model in ('DR', 'DA'):
         return 'C12:dr-da-temperature-unit'
+    if kind == 'exact-not-recovered' and model == 'TemkinApprox' and replay.get('order', 'inc') != 'inc':
+        # rows not in increasing order: the default start is taken from the FIRST row (K ~ n_0 / p_0 / (1.1 max n - n_0)); from the highest point
+        # least_squares ends in a local minimum of the three-parameter Temkin approximation
+        return 'C12:temkin-start-from-first-row-order-dependent'
     if kind in ('units-loading', 'units-material') and replay.get('max_loading_in_new_units', 1.0) < 0.05:
         # loadings expressed in a unit that makes them numerically small (mmol -> mol): least_squares stops on its ABSOLUTE gradient tolerance
         return 'C12:small-loading-magnitude-early-termination'
@@ -535,14 +731,28 @@ def replay(d):
         oc, m = call(pygaps.ModelIsotherm.from_pointisotherm, piso, model=r['model'])
         print('generating parameters', r['params'])
         print('fit ->', oc, None if oc != 'Ok' else ({a: float(b) for a, b in m.model.params.items()}, 'rmse', m.model.rmse))
-    elif k in ('noisy', 'guess'):
+    elif k in ('noisy', 'guess', 'named'):
         p, l = np.array(r['p']), np.array(r['l'])
-        if k == 'guess':
+        if k == 'guess' and 'frame' in r:
+            df = pd.DataFrame(r['frame'])
+            kw = dict(isotherm_data=df, pressure_key='pressure', loading_key='loading', branch=r['branch'])
+            oc, m = call(pygaps.ModelIsotherm.guess, models=r['models'], **kw, **kw_iso(r['mode']))
+            for nm in (r['models'] if r['models'] != 'guess' else []):
+                o1, i1 = call(pygaps.ModelIsotherm, model=nm, **kw, **kw_iso(r['mode']))
+                print('  single', nm, o1, None if o1 != 'Ok' else ('reported', float(i1.model.rmse), 'actual', actual_rmse(i1.model, p, l)[0]))
+        elif k == 'guess':
             oc, m = call(pygaps.ModelIsotherm.guess, pressure=p, loading=l, models=r['models'], **kw_iso(r['mode']))
+            for nm in (r['models'] if r['models'] != 'guess' else []):
+                o1, i1 = call(pygaps.ModelIsotherm, pressure=p, loading=l, model=nm, **kw_iso(r['mode']))
+                print('  single', nm, o1, None if o1 != 'Ok' else ('reported', float(i1.model.rmse), 'actual', actual_rmse(i1.model, p, l)[0]))
         else:
-            extra = {a: r[a] for a in ('param_bounds', 'param_guess') if a in r}
+            extra = {a: r[a] for a in ('param_bounds', 'param_guess') if r.get(a)}
+            if 'param_bounds' in extra:
+                extra['param_bounds'] = {n: tuple(b) for n, b in extra['param_bounds'].items()}
+                print('bounds as written (key order matters to the defect):', extra['param_bounds'])
             oc, m = call(pygaps.ModelIsotherm, pressure=p, loading=l, model=r['model'], **kw_iso(r['mode']), **extra)
-        print('fit ->', oc, None if oc != 'Ok' else (m.model.name, {a: float(b) for a, b in m.model.params.items()}, 'rmse', m.model.rmse))
+        print('fit ->', oc, None if oc != 'Ok' else (m.model.name, {a: float(b) for a, b in m.model.params.items()}, 'reported rmse', float(m.model.rmse),
+                                                     'actual rms deviation / (max - min)', actual_rmse(m.model, p, l)[0] if 'frame' not in r or True else None))
     else:
         print(r)
     return 1
